@@ -301,6 +301,7 @@ class Thread(object):
         hook = s.start_fault
         if hook is not None and hook(self):
             s.fault("thread_start_failure")
+            s.emit("thread.start_failed")
             raise RuntimeError("can't start new thread")
         self._started = True
         role = s.role_of(self) if s.role_of is not None else self.role
